@@ -151,6 +151,9 @@ SIBLINGS = {
     "empty": {"zz_empty.xsd": ""},
     "binary-ish": {"zz_bin.xsd": "\x00\x01\x02 not xml at all �"},
     "same-namespace-clone": {"zz_clone.xsd": SIB_VALID.replace("zulu", "alpha").replace("RecZulu", "RecAlpha")},
+    # file names are case-sensitive: F0.xsd is not f0.xsd, whatever it contains
+    "case-twin-names": {"F0.xsd": SIB_VALID, "F1.XSD": SIB_VALID.replace("zulu", "yankee").replace("RecZulu", "RecYankee"),
+                        "f2.XSD": SIB_VALID.replace("zulu", "xray").replace("RecZulu", "RecXray"), "F3.Xsd": SIB_VALID},
 }
 
 
@@ -506,6 +509,14 @@ def c12(tier):
         text, meta = synth_wsdl(rng("C12", "synth", k), 2 + k % 7, headers=True)
         inputs.append((f"synth-wsdl-{k}-ops{len(meta['ops'])}", {"svc.wsdl": text}, "svc.wsdl"))
     inputs += generated_sets("C12", 10 if tier == "quick" else 60)
+    # the same sets with siblings whose names differ from a used file's name only in case (other content): which of the two is
+    # read must not depend on the order of registration or enumeration
+    for label, files, start in [i for i in inputs if i[0].startswith("generated-")][: 6 if tier == "quick" else 40]:
+        twins = {}
+        for n in sorted(files):
+            alt = n.upper() if n.upper() != n else n.lower()
+            twins[alt] = SIB_VALID.replace("zulu", "twin" + n.split(".")[0]).replace("RecZulu", "RecTwin")
+        inputs.append((label + "+case-twin-siblings", dict(files, **twins), start))
     n_proc = 8 if tier == "quick" else 32
     scratchdir = common.scratch("c12")
     evaluated = 0
